@@ -106,7 +106,15 @@ def parse_depfile(content):
     m = DEPFILE_RE.match(content)
     if not m or any(c in content for c in '\\$#%*'): return ('u',)
     dedup = lambda l: [x for i, x in enumerate(l) if x not in l[:i]]     # DepfileParser keeps first occurrences
-    return ('p', dedup(m.group(1).split()), dedup(m.group(2).split()))
+    def canon(p):
+        # the loader canonicalises every name it reads from a depfile (the harness writes "./x" and "zz/../x" spellings)
+        out = []
+        for c in p.split('/'):
+            if c in ('', '.'): continue
+            if c == '..' and out and out[-1] != '..': out.pop()
+            else: out.append(c)
+        return ('/' if p.startswith('/') else '') + '/'.join(out) or '.'
+    return ('p', dedup([canon(x) for x in dedup(m.group(1).split())]), [canon(x) for x in dedup(m.group(2).split())])
 
 # ------------------------------------------------------------------ model input
 def edge_ins(e):
